@@ -1,5 +1,5 @@
 """C17 (crash points) is assembled from the Conn part and, later, the Transport/Reader/Writer parts."""
-from engines import conn, writer
+from engines import conn, writer, transport
 
 PROPS = {"C17": "fault_enumeration"}
 
@@ -17,7 +17,11 @@ def run(ctx):
     w.pop("divergences_full", None)
     cov["writer_continuation"] = w
     cov["traces_validated_against_impl"] = (cov.get("traces_validated_against_impl") or 0) + w["traces_validated_against_impl"]
-    n = cov.get("cut_points", 0) + w["ack_cut_positions"] * 3
+    # every response type read through the Transport, cut at every byte
+    t = transport.run_part(ctx, "C17")
+    cov["transport"] = {k: t.get(k) for k in t if k not in ("samples", "frames")}
+    cov["traces_validated_against_impl"] += t.get("traces_validated_against_impl") or 0
+    n = cov.get("cut_points", 0) + w["ack_cut_positions"] * 3 + (t.get("cut_points") or 0)
     cov.update({"evaluations": n, "distinct_nontrivial": n,
                 "rule": "one case per (response type, version, codec, cut position k): the fake broker delivers exactly k bytes of the response frame and closes; every k of every frame in thorough, every k of the first 100 bytes plus a seeded sample in quick; non-trivial = k < frame length",
                 "exhaustive": ctx.tier == "thorough"})
